@@ -24,11 +24,28 @@ type C12Op struct {
 
 type C12Case struct {
 	Mode    Mode      `json:"mode"`
-	Workers [][]C12Op `json:"workers"` // one op list per goroutine
-	Pre     []C12Op   `json:"pre"`     // executed sequentially before the concurrent phase
+	Workers [][]C12Op `json:"workers"`           // one op list per goroutine
+	Pre     []C12Op   `json:"pre"`               // executed sequentially before the concurrent phase
+	Style   int       `json:"style,omitempty"`   // spelling of names and URIs: index into c12NamePools / c12URIPools
+	Ballast int       `json:"ballast,omitempty"` // entries registered in every registry before anything else (they widen the windows inside list requests)
 }
 
 var c12Names = []string{"n0", "n1", "n2", "n3"}
+
+// names and URIs are opaque strings to the registries: spellings a URL parser or a case-folding map would alter
+var c12NamePools = [][]string{
+	{"n0", "n1", "n2", "n3"},
+	{"n 0", "ñ1", "N2", "n2"},
+	{"a/b", "a%2Fb", "x.y#z", "{t}"},
+}
+var c12URIPools = [][]string{
+	{"file:///n0", "file:///n1", "file:///n2", "file:///n3"},
+	{"FILE:///Dir/n 0", "file:///ñ1", "file:///a|b{c}", "file:///n3#"},
+	{"file:///a%20b", "file:///a b", "custom://Host/x?q=1&r=%7B", "urn:x:Y"},
+}
+
+func (c C12Case) names() []string { return c12NamePools[c.Style%len(c12NamePools)] }
+func (c C12Case) uris() []string  { return c12URIPools[c.Style%len(c12URIPools)] }
 
 func genC12Ops(t *rapid.T, n int, label string) []C12Op {
 	var ops []C12Op
@@ -48,6 +65,8 @@ func genC12(t *rapid.T) C12Case {
 	for w := 0; w < nw; w++ {
 		c.Workers = append(c.Workers, genC12Ops(t, rapid.IntRange(1, 12).Draw(t, "nops"), "w"))
 	}
+	c.Style = rapid.SampledFrom([]int{0, 0, 1, 2}).Draw(t, "style")
+	c.Ballast = rapid.SampledFrom([]int{0, 0, 0, 40, 300}).Draw(t, "ballast")
 	return c
 }
 
@@ -98,7 +117,7 @@ func ntC12(c C12Case) (bool, []string) {
 			}
 		}
 	}
-	return nt, []string{"mode=" + c.Mode.String(), fmt.Sprintf("workers=%d", len(c.Workers))}
+	return nt, []string{"mode=" + c.Mode.String(), fmt.Sprintf("workers=%d", len(c.Workers)), fmt.Sprintf("style=%d", c.Style), fmt.Sprintf("ballast=%d", c.Ballast)}
 }
 
 type c12Rec struct {
@@ -108,6 +127,7 @@ type c12Rec struct {
 	listed     map[string]string // list ops: name/uri -> description (version tag)
 	order      []string          // list ops: order
 	dup        string
+	ballast    int    // list ops: ballast entries listed
 	ok         bool   // call/get/read succeeded
 	text       string // call/get/read payload
 	code       int    // error code
@@ -125,10 +145,22 @@ func execC12(c C12Case) *Failure {
 	var verSeq atomic.Int64
 	var mu sync.Mutex
 	var recs []*c12Rec
+	for i := 0; i < c.Ballast; i++ {
+		bn := fmt.Sprintf("ballast-%03d", i)
+		w.Srv.RegisterTool(mcp.NewTool(bn, mcp.WithDescription("ballast")), func(ctx context.Context, req *mcp.CallToolRequest) (*mcp.CallToolResult, error) {
+			return mcp.NewTextResult("ballast"), nil
+		})
+		w.Srv.RegisterPrompt(&mcp.Prompt{Name: bn, Description: "ballast", Arguments: []mcp.PromptArgument{{Name: "a", Description: "b"}}}, func(ctx context.Context, req *mcp.GetPromptRequest) (*mcp.GetPromptResult, error) {
+			return &mcp.GetPromptResult{}, nil
+		})
+		w.Srv.RegisterResource(&mcp.Resource{URI: "ballast://" + bn, Name: bn, Description: "ballast"}, func(ctx context.Context, req *mcp.ReadResourceRequest) (mcp.ResourceContents, error) {
+			return mcp.TextResourceContents{URI: "ballast://" + bn, Text: "ballast"}, nil
+		})
+	}
 	run := func(op C12Op, worker int) {
 		r := &c12Rec{op: op}
-		name := c12Names[op.Name]
-		uri := "file:///" + name
+		name := c.names()[op.Name]
+		uri := c.uris()[op.Name]
 		r.start = clock.Add(1)
 		post := func(method string, params string) (map[string]interface{}, string) {
 			id := fmt.Sprintf(`"w%d-%d"`, worker, clock.Add(1))
@@ -154,6 +186,12 @@ func execC12(c C12Case) *Failure {
 				im, _ := it.(map[string]interface{})
 				n, _ := im[idField].(string)
 				d, _ := im["description"].(string)
+				if strings.HasPrefix(n, "ballast-") || strings.HasPrefix(n, "ballast://") {
+					if d == "ballast" {
+						r.ballast++
+					}
+					continue
+				}
 				if _, dup := r.listed[n]; dup {
 					r.dup = n
 				}
@@ -166,8 +204,11 @@ func execC12(c C12Case) *Failure {
 			r.raw = raw
 			if res, ok := m["result"].(map[string]interface{}); ok {
 				r.ok = true
-				b, _ := json.Marshal(res)
-				r.text = string(b)
+				var bb strings.Builder
+				enc := json.NewEncoder(&bb)
+				enc.SetEscapeHTML(false)
+				enc.Encode(res)
+				r.text = bb.String()
 			} else if e, ok := m["error"].(map[string]interface{}); ok {
 				cf, _ := e["code"].(float64)
 				r.code = int(cf)
@@ -228,17 +269,21 @@ func execC12(c C12Case) *Failure {
 		}(wi, ops)
 	}
 	wg.Wait()
+	// quiescent: one list of every registry after everything has completed (a registration that has returned is visible
+	// to every later list, whatever raced with it)
+	for _, op := range []string{"listtools", "listprompts", "listres"} {
+		run(C12Op{Op: op}, 98)
+	}
 	return judgeC12(c, recs)
 }
 
 // judgeC12: interval reasoning over the recorded history.
 func judgeC12(c C12Case, recs []*c12Rec) *Failure {
 	key := func(o C12Op) string {
-		n := c12Names[o.Name]
 		if c12Registry(o.Op) == "res" {
-			return "file:///" + n
+			return c.uris()[o.Name]
 		}
-		return n
+		return c.names()[o.Name]
 	}
 	type wr struct {
 		reg        bool
@@ -295,7 +340,7 @@ func judgeC12(c C12Case, recs []*c12Rec) *Failure {
 		var b []string
 		sort.Slice(recs, func(i, j int) bool { return recs[i].start < recs[j].start })
 		for _, r := range recs {
-			b = append(b, fmt.Sprintf("[%d-%d %s %s v%d]", r.start, r.end, r.op.Op, c12Names[r.op.Name], r.ver))
+			b = append(b, fmt.Sprintf("[%d-%d %s %s v%d]", r.start, r.end, r.op.Op, c.names()[r.op.Name], r.ver))
 		}
 		s := strings.Join(b, " ")
 		if len(s) > 1500 {
@@ -313,10 +358,13 @@ func judgeC12(c C12Case, recs []*c12Rec) *Failure {
 			if r.dup != "" {
 				return Failf("C12/duplicate-entry/"+reg, "%s: %s lists %q twice: %v\nhistory: %s", c.Mode, r.op.Op, r.dup, r.order, hist())
 			}
-			for _, n := range c12Names {
+			if r.ballast != c.Ballast {
+				return Failf("C12/missing-entry/"+reg, "%s: %s [%d-%d] shows %d of the %d entries registered before anything else\nhistory: %s", c.Mode, r.op.Op, r.start, r.end, r.ballast, c.Ballast, hist())
+			}
+			for ni, n := range c.names() {
 				k := n
 				if reg == "res" {
-					k = "file:///" + n
+					k = c.uris()[ni]
 				}
 				desc, listed := r.listed[k]
 				if definitelyPresent(reg, k, r.start, r.end) && !listed {
@@ -326,7 +374,7 @@ func judgeC12(c C12Case, recs []*c12Rec) *Failure {
 					return Failf("C12/phantom-entry/"+reg, "%s: %s [%d-%d] lists %q, which was never registered before the list ended\nhistory: %s", c.Mode, r.op.Op, r.start, r.end, k, hist())
 				}
 				if listed {
-					tag := strings.SplitN(desc, "|", 2)[0]
+					tag := desc[:strings.LastIndex(desc, "|")]
 					if !versionsOf(reg, k, r.end)[tag] || !strings.HasSuffix(desc, "|"+n) {
 						return Failf("C12/torn-entry/"+reg, "%s: %s lists %q with descriptor %q, which is none of the registered versions %v\nhistory: %s", c.Mode, r.op.Op, k, desc, sortedKeys(versionsOf(reg, k, r.end)), hist())
 					}
@@ -335,8 +383,7 @@ func judgeC12(c C12Case, recs []*c12Rec) *Failure {
 			if reg == "res" {
 				// registration order: first registrations that are ordered in time and never re-ordered
 				first := map[string]wr{}
-				for _, n := range c12Names {
-					k := "file:///" + n
+				for _, k := range c.uris() {
 					for _, x := range writes["res|"+k] {
 						if f, ok := first[k]; !ok || x.start < f.start {
 							first[k] = x
